@@ -11,7 +11,7 @@ from . import chartgen as cg
 class Inst:
     def __init__(self, g, chart, naming='id', order=None, tr_order=None, sends=None, tag='',
                  sc=None, interp_kwargs=None, extra_context=None, guards=True, priorities=None,
-                 code_hook=None, guard_key=None):
+                 code_hook=None, guard_key=None, cache_key=None):
         from sismic.interpreter import Interpreter
         self.g = g
         self.tag = tag
@@ -39,11 +39,18 @@ class Inst:
             if kind == 'exit':
                 return "P('ex', %d)" % ident
             return None
+        if sc is None and cache_key is not None and ('chart', cache_key) in g.cache:
+            sc = g.cache[('chart', cache_key)]       # the Statechart is not mutated by interpretation
         if sc is None:
             self.sc, self.trs, self.cm = cg.build(chart, naming, code, order=order, tr_order=tr_order,
                                                   priorities=priorities)
+            if cache_key is not None:
+                g.cache[('chart', cache_key)] = (self.sc, self.trs, self.cm)
         else:
             self.sc, self.trs, self.cm = sc
+            if priorities is not None:
+                for t, p in zip(self.trs, priorities):
+                    t.priority = p
         ctx = {'G': self._G, 'A': self._A, 'P': self._P}
         ctx.update(extra_context or {})
         self.it = Interpreter(self.sc, initial_context=ctx, **(interp_kwargs or {}))
